@@ -52,6 +52,7 @@ type Reply struct {
 	Delay    time.Duration
 	Abort    bool // answer with bytes that are not HTTP, then close (a plain close would make Go's transport retry)
 	Truncate bool // announce the full Content-Length, send half of the body, close
+	Drop     bool // read the request, then close the connection without a single byte
 	// ServeContent: answer through http.ServeContent with this ETag / modification time
 	ServeContent bool
 	ETag         string
@@ -281,6 +282,15 @@ func (o *Origin) handle(w http.ResponseWriter, r *http.Request) {
 		case <-time.After(rep.Delay):
 		case <-r.Context().Done():
 		}
+	}
+	if rep.Drop {
+		if hj, ok := w.(http.Hijacker); ok {
+			if conn, _, err := hj.Hijack(); err == nil {
+				conn.Close()
+				return
+			}
+		}
+		panic(http.ErrAbortHandler)
 	}
 	if rep.Abort {
 		if hj, ok := w.(http.Hijacker); ok {
